@@ -169,13 +169,13 @@ def run_one(ctl, cfg: Dict[str, Any]) -> Dict[str, Any]:
             if all(x is None for x in st.values()) or time.monotonic() > end:
                 break
             await asyncio.sleep(0.02)
-        # fds: asyncio/anyio close a pipe whose reading was paused only when the transport object is
-        # collected, so collect (with the loop still alive) and let the loop run the close callbacks
+        # fds: counted with the garbage collector switched off for the whole run - a descriptor that is only
+        # released when some object happens to be collected is still open as far as the statement is concerned;
+        # the loop gets a moment to run its close callbacks
         n = _nfds()
         for _ in range(25):
             if n <= info["fds_loop_before"]:
                 break
-            gc.collect()
             await asyncio.sleep(0.02)
             n = _nfds()
         info["states_in_loop"] = st
@@ -185,6 +185,7 @@ def run_one(ctl, cfg: Dict[str, Any]) -> Dict[str, Any]:
     fds_before = _nfds()
     sys.unraisablehook = lambda *a: None  # GC of never-closed transports after the loop is gone is not our subject
     anyio.open_process = recording_open
+    gc.disable()
     try:
         asyncio.run(asyncio.wait_for(main(), 30))
         hung = False
@@ -194,6 +195,7 @@ def run_one(ctl, cfg: Dict[str, Any]) -> Dict[str, Any]:
         hung = False
         info["outcome"] = "runner:" + type(e).__name__
     finally:
+        gc.enable()
         anyio.open_process = orig_open
     # give the kernel a moment, then look
     states = {}
@@ -240,7 +242,7 @@ def run_one(ctl, cfg: Dict[str, Any]) -> Dict[str, Any]:
             bad("child-left-running", f"child still alive (state {s}) after the context was left")
     if info.get("fds_loop_after", 0) > info.get("fds_loop_before", 0):
         bad("fd-leak", f"{info['fds_loop_after'] - info['fds_loop_before']} more open file descriptors 0.5 s after leaving "
-                       "the context (garbage collected, loop still running)", when="in-loop")
+                       "the context (garbage collector switched off, loop still running)", when="in-loop")
     elif fds_after > fds_before:
         bad("fd-leak", f"{fds_after - fds_before} more open file descriptors after leaving the context and collecting garbage",
             when="after-gc")
